@@ -1,1 +1,267 @@
-/- C06 — property theorems (stub: the slice is not built yet). -/
+import GB.C06.Proofs
+/-
+  C06 — property theorems.  `PatState` / `SvcState` are the executable models of
+  routing/pattern_router.go and routing/service_router.go (GB/C06/Model.lean; the gbdriver runs the
+  very same definitions against the real routers after every step of every generated history).
+  `latestOf h` is the specification state: for every target still watched after the history `h`,
+  the most recent description delivered for it.  All theorems quantify over ALL finite histories
+  (and all `valid`/`eval`, the opaque template validity and per-route match outcome).
+-/
+set_option linter.unusedSimpArgs false
+set_option linter.unusedVariables false
+open GB GB.C06
+
+/-- Invariant bundle, pattern side: after any history the mutable table, the back-links and the
+    committed snapshot are exactly the latest descriptions of the watched targets. -/
+theorem C06_pattern_invariant (valid : Bytes → Bool) (h : List Op) :
+    PInv valid (PatState.init.run valid h) (latestOf h) :=
+  PInv_run (PInv_init valid) h
+
+/-- Invariant bundle, service side. -/
+theorem C06_service_invariant (h : List Op) : SInv (SvcState.init.run h) (latestOf h) :=
+  SInv_run SInv_init h
+
+/-- **Pattern lookups = lookups on the table built from the latest descriptions** (for requests not
+    contested between targets), including the target version and the index path of the returned
+    service/method/binding.  `names` is any enumeration order that covers the watched targets. -/
+theorem C06_pattern (valid : Bytes → Bool) (pool : Name → Bool) (eval : Bytes → Route → Outcome)
+    (h : List Op) (names : List Name) (m : HMethod) (path : Bytes)
+    (hnames : ∀ n, (latestOf h).watched n = true → n ∈ names)
+    (hu : Uncontested valid (eval path) (latestOf h) m) :
+    routeHTTP pool eval (PatState.init.run valid h).static m path =
+      routeHTTP pool eval (specTable valid (latestOf h) names) m path := by
+  have inv := C06_pattern_invariant valid h
+  have key : firstDecisive (eval path) (groupsOf (PatState.init.run valid h).static m) =
+      firstDecisive (eval path) (groupsOf (specTable valid (latestOf h) names) m) := by
+    rw [inv.committed, groupsOf_specTable]
+    apply firstDecisive_same_members
+    · intro g
+      constructor
+      · intro hg
+        have hs := inv.sound _ _ hg
+        exact List.mem_filterMap.mpr ⟨g.name, hnames _ (specGroup_watched hs), hs⟩
+      · intro hg
+        obtain ⟨n, _, hs⟩ := List.mem_filterMap.mp hg
+        exact inv.complete _ _ _ hs
+    · intro g g' hg hg' hd hd'
+      have hs := inv.sound _ _ hg
+      have hs' := inv.sound _ _ hg'
+      have hn := hu _ _ _ _ hs hs' ((decisive_iff _ _).mpr hd) ((decisive_iff _ _).mpr hd')
+      rw [hn] at hs; rw [hs] at hs'; exact Option.some.inj hs'
+  unfold routeHTTP
+  rw [key]
+
+/-- Whatever a pattern lookup returns — contested or not — is a route of the **latest** description of
+    a target that is still watched: nothing of a closed target, of a superseded description or of a
+    dropped HTTP method/binding can be returned. -/
+theorem C06_pattern_latest (valid : Bytes → Bool) (pool : Name → Bool) (eval : Bytes → Route → Outcome)
+    (h : List Op) (m : HMethod) (path : Bytes) (n : Name) (v : Ver) (r : Route)
+    (hf : routeHTTP pool eval (PatState.init.run valid h).static m path = .found n v r) :
+    ∃ d, (latestOf h).desc n = some d ∧ d.ver = v ∧ (latestOf h).watched n = true ∧
+      ∃ rs, built valid d m = some rs ∧ r ∈ rs ∧ eval path r = .hit := by
+  have inv := C06_pattern_invariant valid h
+  unfold routeHTTP at hf
+  split at hf
+  · split at hf
+    · cases hf
+    · rename_i g r' hfd
+      split at hf
+      · simp only [HTTPRes.found.injEq] at hf
+        obtain ⟨h1, h2, h3⟩ := hf
+        obtain ⟨hg, hr, ho, _⟩ := firstDecisive_some hfd
+        rw [inv.committed] at hg
+        have hs := inv.sound _ _ hg
+        obtain ⟨d, hd, rs, hb, hge⟩ := specGroup_some hs
+        subst h3
+        refine ⟨d, ?_, ?_, ?_, rs, hb, ?_, ho.symm⟩
+        · rw [← h1]; exact hd
+        · rw [← h2, hge]
+        · rw [← h1]; exact desc_some_watched _ _ d hd
+        · rw [hge] at hr; exact hr
+      · cases hf
+    · cases hf
+    · cases hf
+  · cases hf
+
+/-- **Service lookups** for a service that was never listed by two live targets at once: the one
+    live target listing it owns it, and the route points into that target's latest description
+    (version and index of the service) — this is what fails before fix D6. -/
+theorem C06_service (h : List Op) (svc : SvcName) (hs : NeverShared svc Latest.init h)
+    (n : Name) (hl : Lists (latestOf h) n svc) :
+    (SvcState.init.run h).routes svc = specSvcRoute (latestOf h) n svc := by
+  have inv := C06_service_invariant h
+  have own := ListersOwn_run svc h SvcState.init Latest.init SInv_init
+    (by intro n ⟨d, hd, _⟩; simp [Latest.desc, Latest.init] at hd) hs
+  obtain ⟨r, hr, ht⟩ := own n hl
+  rw [hr, ← ht]
+  exact (inv.latest _ _ hr).symm
+
+/-- A service no live target lists (dropped by an update, or its owner closed) is not routed — always. -/
+theorem C06_service_gone (h : List Op) (svc : SvcName) (hn : ∀ n, ¬ Lists (latestOf h) n svc) :
+    (SvcState.init.run h).routes svc = none := by
+  have inv := C06_service_invariant h
+  cases hr : (SvcState.init.run h).routes svc with
+  | none => rfl
+  | some r => exact absurd (specSvcRoute_lists (inv.latest _ _ hr)) (hn _)
+
+/-- Whoever owns a service — contested or not — is watched, lists it in its latest description, and the
+    stored pointers are into that latest description. -/
+theorem C06_service_latest (h : List Op) (svc : SvcName) (r : SvcRoute)
+    (hr : (SvcState.init.run h).routes svc = some r) :
+    specSvcRoute (latestOf h) r.target svc = some r ∧ Lists (latestOf h) r.target svc ∧
+      (latestOf h).watched r.target = true := by
+  have inv := C06_service_invariant h
+  have h1 := inv.latest _ _ hr
+  obtain ⟨d, hd, _⟩ := specSvcRoute_some h1
+  exact ⟨h1, specSvcRoute_lists h1, desc_some_watched _ _ d hd⟩
+
+/-- **Isolation, pattern side**: an operation on target `n` leaves, in the list of every HTTP method, the
+    elements of all other targets untouched — content, version and relative order. -/
+theorem C06_isolation_pattern (valid : Bytes → Bool) (h : List Op) (op : Op) (m : HMethod) :
+    othersOf op.target ((PatState.init.run valid h).step valid op).1.static m =
+      othersOf op.target (PatState.init.run valid h).static m := by
+  have inv := C06_pattern_invariant valid h
+  have inv' := PInv_step inv op
+  unfold othersOf
+  rw [inv.committed, inv'.committed]
+  exact othersOf_step valid _ op m
+
+/-- **Isolation, service side**: an operation on target `n` does not change the route of a service owned
+    by another target. -/
+theorem C06_isolation_service (h : List Op) (op : Op) (svc : SvcName) (r : SvcRoute)
+    (hr : (SvcState.init.run h).routes svc = some r) (hne : r.target ≠ op.target) :
+    ((SvcState.init.run h).step op).1.routes svc = some r := by
+  have inv := (C06_service_invariant h).base
+  cases op with
+  | watch n => simp only [SvcState.step]; split <;> exact hr
+  | update n d =>
+    simp only [SvcState.step]
+    split
+    · exact hr
+    · split
+      · exact hr
+      · rename_i hd
+        have hd' : d.name = n := by simpa using hd
+        have hf : Foreign (SvcState.init.run h).routes d.name svc := ⟨r, hr, by rw [hd']; exact hne⟩
+        rw [update_foreign inv d svc hf]; exact hr
+  | close n =>
+    simp only [SvcState.step]
+    split
+    · exact hr
+    · show ((SvcState.init.run h).removeTarget n).routes svc = some r
+      rw [removeTarget_routes]
+      have : svc ∉ sliceOf ((SvcState.init.run h).svcRoutes n) := by
+        intro hx
+        obtain ⟨r', hr', ht'⟩ := inv.claims _ _ hx
+        rw [hr] at hr'; cases hr'; exact hne ht'
+      simp [this, hr]
+
+/-- **Watch discipline**: on both routers `Watch(n)` succeeds iff `n` is not currently watched … -/
+theorem C06_watch (valid : Bytes → Bool) (h : List Op) (n : Name) :
+    ((PatState.init.run valid h).step valid (.watch n)).2 = (if (latestOf h).watched n then OpRes.already else OpRes.ok) ∧
+    ((SvcState.init.run h).step (.watch n)).2 = (if (latestOf h).watched n then OpRes.already else OpRes.ok) := by
+  have ip := (C06_pattern_invariant valid h).watch n
+  have is := (C06_service_invariant h).watch n
+  constructor
+  · simp only [PatState.step, ip]; split <;> rfl
+  · simp only [SvcState.step, is]; split <;> rfl
+
+/-- … where "currently watched" means: watched by the last `watch`/`close` of that name —
+    a close makes the name watchable again, a successful watch makes it unwatchable, other names and
+    updates do not matter. -/
+theorem C06_watched_spec (h : List Op) (n m : Name) (d : Desc) :
+    (latestOf ([] : List Op)).watched m = false ∧
+    (latestOf (h ++ [.watch n])).watched m = ((latestOf h).watched m || decide (m = n)) ∧
+    (latestOf (h ++ [.close n])).watched m = ((latestOf h).watched m && !decide (m = n)) ∧
+    (latestOf (h ++ [.update n d])).watched m = (latestOf h).watched m := by
+  refine ⟨rfl, ?_, ?_, ?_⟩
+  · rw [latestOf_snoc, watched_watch]
+  · rw [latestOf_snoc, watched_close]
+  · rw [latestOf_snoc, watched_update]
+
+/-- In particular: after `close n` a new `Watch(n)` succeeds, after a `watch n` a second one fails. -/
+theorem C06_rewatch (valid : Bytes → Bool) (h : List Op) (n : Name) :
+    ((PatState.init.run valid (h ++ [.close n])).step valid (.watch n)).2 = .ok ∧
+    ((SvcState.init.run (h ++ [.close n])).step (.watch n)).2 = .ok ∧
+    ((PatState.init.run valid (h ++ [.watch n])).step valid (.watch n)).2 = .already ∧
+    ((SvcState.init.run (h ++ [.watch n])).step (.watch n)).2 = .already := by
+  have c := C06_watch valid (h ++ [.close n]) n
+  have w := C06_watch valid (h ++ [.watch n]) n
+  have hc : (latestOf (h ++ [.close n])).watched n = false := by
+    rw [latestOf_snoc, watched_close]; simp
+  have hw : (latestOf (h ++ [.watch n])).watched n = true := by
+    rw [latestOf_snoc, watched_watch]; simp
+  rw [hc] at c; rw [hw] at w
+  exact ⟨c.1, c.2, w.1, w.2⟩
+
+/-- The nil dereference `removeRoute` would perform on a method without a list never happens, and the
+    committed snapshot always equals the mutable table (sequentially). -/
+theorem C06_no_fault (valid : Bytes → Bool) (h : List Op) :
+    (PatState.init.run valid h).fault = false ∧
+    (PatState.init.run valid h).static = (PatState.init.run valid h).routes :=
+  ⟨(C06_pattern_invariant valid h).noFault, (C06_pattern_invariant valid h).committed⟩
+
+/-- Each target has at most one element in the list of each HTTP method, and its back-links are exactly
+    the methods where it has one, without duplicates — so "the element a `targetLinks` entry points to"
+    is well defined by (method, target name), the way the model identifies `*list.Element`s. -/
+theorem C06_elements_unique (valid : Bytes → Bool) (h : List Op) (m : HMethod) (n : Name) :
+    (((groupsOf (PatState.init.run valid h).routes m).map (·.name)).Nodup) ∧
+    (sliceOf ((PatState.init.run valid h).links n)).Nodup ∧
+    (m ∈ sliceOf ((PatState.init.run valid h).links n) ↔
+      ∃ g ∈ groupsOf (PatState.init.run valid h).routes m, g.name = n) := by
+  have inv := C06_pattern_invariant valid h
+  refine ⟨UInv_run h (PInv_init valid) UInv_init m, inv.linksNodup n, ?_⟩
+  rw [inv.links n m]
+  constructor
+  · intro hs
+    cases hg : specGroup valid (latestOf h) m n with
+    | none => simp [hg] at hs
+    | some g => exact ⟨g, inv.complete _ _ _ hg, specGroup_name hg⟩
+  · rintro ⟨g, hg, hn⟩
+    have := inv.sound _ _ hg
+    rw [hn] at this
+    simp [this]
+
+/-! ### D6: what was wrong before the fix (kernel-checked witness on explicit data) -/
+
+/-- descriptions v1 and v2 of target "a", both listing service "S" -/
+def d6v1 : Desc := ⟨[97], 1, [⟨[83], []⟩]⟩
+def d6v2 : Desc := ⟨[97], 2, [⟨[83], [⟨[47, 83, 47, 77], []⟩]⟩]⟩
+
+/-- Before fix D6 (`updateRoutesPreFix`: no Store on the same-owner branch) the route of "S" still points
+    into description v1 after v2 was delivered … -/
+theorem C06_service_stale_before_fix :
+    (updateRoutesPreFix (updateRoutesPreFix SvcState.init d6v1) d6v2).routes [83] = some ⟨[97], 1, 0⟩ := by
+  decide
+
+/-- … whereas the fixed code (the model the theorems above are about) points into v2. -/
+theorem C06_service_fresh_after_fix :
+    (SvcState.init.run [.watch [97], .update [97] d6v1, .update [97] d6v2]).routes [83] = some ⟨[97], 2, 0⟩ := by
+  decide
+
+/-! ### non-vacuity -/
+
+/-- `C06_service` applies to the D6 history: "S" is never shared and "a" lists it. -/
+example : NeverShared [83] Latest.init [.watch [97], .update [97] d6v1, .update [97] d6v2] ∧
+    Lists (latestOf [.watch [97], .update [97] d6v1, .update [97] d6v2]) [97] [83] := by
+  have hd : (latestOf [.watch [97], .update [97] d6v1, .update [97] d6v2]).desc [97] = some d6v2 := by decide
+  refine ⟨?_, ⟨d6v2, hd, ⟨[83], [⟨[47, 83, 47, 77], []⟩]⟩, by simp [d6v2], rfl⟩⟩
+  have uns : ∀ (l : Latest), (∀ n, n ≠ [97] → l.desc n = none) → ∀ n n', Lists l n [83] → Lists l n' [83] → n = n' := by
+    intro l hl n n' ⟨d, hd, _⟩ ⟨d', hd', _⟩
+    have h1 : n = [97] := Classical.byContradiction fun hn => by rw [hl n hn] at hd; cases hd
+    have h2 : n' = [97] := Classical.byContradiction fun hn => by rw [hl n' hn] at hd'; cases hd'
+    rw [h1, h2]
+  refine ⟨uns _ ?_, uns _ ?_, uns _ ?_, uns _ ?_⟩ <;>
+    (intro n hn; simp [Latest.step, Latest.init, Latest.desc, upd, hn, d6v1, d6v2])
+
+/-- a request is uncontested as soon as only one target is watched -/
+example (valid : Bytes → Bool) (ev : Route → Outcome) (m : HMethod) (d : Desc) :
+    Uncontested valid ev (latestOf [.watch [97], .update [97] d]) m := by
+  intro n n' g g' hs hs' _ _
+  have hw := specGroup_watched hs
+  have hw' := specGroup_watched hs'
+  have key : ∀ x, (latestOf [.watch [97], .update [97] d]).watched x = true → x = [97] := by
+    intro x hx
+    simp only [latestOf, List.foldl, watched_update, watched_watch] at hx
+    simpa [Latest.watched, Latest.init] using hx
+  rw [key n hw, key n' hw']
